@@ -5,6 +5,7 @@ import (
 	"fmt"
 
 	"verif/internal/ev"
+	"verif/internal/minichain"
 	"verif/ref/refchain"
 	"verif/ref/refhash"
 	"verif/ref/refsig"
@@ -281,4 +282,50 @@ func (g *caseGen) sigFamily(cx *ctxt, thorough bool) {
 			}
 		}
 	}
+}
+
+// ---------------------------------------------------------------------------
+// bursts against the bounded queues the handlers feed
+//
+// client/network and client/txpool make these buffered channels:
+//   NetTxs (2048)   fed by ParseTxNet inside txpool.NeedThisTxExt, i.e. with
+//                   txpool.TxMutex locked; non-blocking (drops when full)
+//   NetBlocks (512) fed by queueNewBlock: from netBlockReceived after MutexRcv was
+//                   released, from ProcessCmpctBlock / ProcessBlockTxn with MutexRcv
+//                   held; blocking by design (only for heights < tip+256, which needs
+//                   that many blocks with valid proof of work)
+//   c.GetMP (1), txpool.GetMPInProgressTicket (1), c.writing_thread_push (1):
+//                   all non-blocking selects; the first two are fed only for peers that
+//                   sent an ENCRYPTED authack (not in the harness' message alphabet)
+// Scenario: the main thread stops reading ("nodrain"), cap+2 distinct well-formed
+// messages arrive, every handler must return and every mutex must be free after each
+// one; reading resumes ("drain") and one more message must be processed normally.
+
+func (g *caseGen) burstFamily(cx *ctxt, withBlocks bool) {
+	w := g.w
+	// NetTxs: parseable transactions with distinct txids; they are queued before any
+	// input lookup or script check
+	evs := []Event{{T: "nodrain"}}
+	for j := 0; j < 2048+2; j++ {
+		t := &reftx.Tx{Version: 2, In: []reftx.In{{Prev: [32]byte{0xb0, byte(j), byte(j >> 8), 0x5e}, Vout: uint32(j % 3), Sequence: 0xffffffff}},
+			Out: []reftx.Out{{Value: 1000 + uint64(j), Script: []byte{0x51}}}}
+		evs = append(evs, mev("tx", t.Serialize(true)))
+	}
+	evs = append(evs, Event{T: "drain"})
+	s := newSpend(w.fund.TxID(), []coin{w.coins[kP2WPKH*coinsPerKind], w.coins[kP2TR*coinsPerKind]})
+	evs = append(evs, mev("tx", s.build([]string{"valid", "valid"})))
+	g.add("burst/NetTxs=2048+2", "burst-tx", cx, evs...)
+
+	if !withBlocks {
+		return
+	}
+	// NetBlocks: distinct valid blocks on the tip (coinbase only); the 513th send waits
+	// for room while holding nothing - back-pressure, the harness makes room
+	evs = []Event{{T: "nodrain"}}
+	for j := 0; j < 512+2; j++ {
+		b := minichain.Build(minichain.Spec{Prev: w.tipH, Height: 111, Tag: byte(j), Time: minichain.GenesisTime + 600*111 + 1 + uint32(j), CbValue: -1})
+		evs = append(evs, mev("block", b.Bytes()))
+	}
+	evs = append(evs, Event{T: "drain"}, mev("ping", []byte{1, 2, 3, 4, 5, 6, 7, 8}))
+	g.add("burst/NetBlocks=512+2", "burst-block", cx, evs...)
 }
